@@ -104,8 +104,12 @@ def run(tier):
             check("t2tot2::tprd(A)", N, one(m2, "verif_tprd_%d" % N, [f], [nt * nt]),
                   [prod[i].diff(x) for i in range(nt) for x in gn], "d (A.B)_i/d B_j")
     rep.floor("shims interpreted (-O2)", 60)
+    # eigen-tensor derivatives and the derivatives built on them: structural clauses shared with C05 (check-before-divide on
+    # eigenvalue differences, coupling of n_ij with the pair (i, j), exhaustive coincidence analysis)
+    import C05
+    C05.clauses(rep)
     rep.assumptions += ["Mandel / 9-component coordinates are orthonormal, so component k of the returned tensor is the partial "
                         "derivative with respect to the k-th stored component; st2tost2(i,j) = d a_i/d b_j",
                         "oracle = the library's own primal function: a consistent change of both sides stays silent",
-                        "eigen-tensor derivatives, PK1 derivative conversions and finite-difference convergence are not covered"]
+                        "eigen-tensor derivatives: only the structural clauses (guarded divisions, coupling, exhaustive case analysis) are decided; PK1 derivative conversions and finite-difference convergence are not covered"]
     return rep
